@@ -165,10 +165,12 @@ impl Check for C16 {
                     let was_alt = live.hid.alt;
                     let pre_resized = live.hid.resized_in_alt;
                     let f = live.parser.feed(ch);
+                    let mut handed_out: Vec<Line> = vec![];
                     if by_feed {
                         live.vt.feed(ch);
                     } else {
-                        live.vt.feed_str(ch.encode_utf8(&mut buf));
+                        let chg = live.vt.feed_str(ch.encode_utf8(&mut buf));
+                        handed_out.extend(chg.scrollback);
                     }
                     if let Some(f) = &f {
                         live.track(f);
@@ -215,12 +217,28 @@ impl Check for C16 {
                                 }
                             } else {
                                 // under a limit the call that returns may run a trim that was pending
-                                // since before the excursion: the oldest lines may be gone, nothing else
+                                // since before the excursion (possible only after feed() loops): the
+                                // oldest lines may be gone then - exactly down to the limit, handed out
+                                // through this call's Changes.scrollback - and nothing else
+                                let l = t.config.limit.unwrap_or(0);
+                                let bound = rows + l + l / 10;
                                 if now.len() > en.lines.len() || now != &en.lines[en.lines.len() - now.len()..] {
                                     return Verdict::Violation { rule: "C16/primary-lines-changed".into(), detail: format!("{}: primary lines() after return ({} lines) are not the newest part of what they were on entry ({} lines)", ctx_s, now.len(), en.lines.len()) };
                                 }
                                 if now.len() < en.lines.len() {
                                     st.bump("pending_trim_ran_on_return");
+                                    if en.lines.len() <= bound {
+                                        return Verdict::Violation { rule: "C16/primary-trimmed-without-need".into(), detail: format!("{}: the primary held {} lines on entry (bound {}), after return only {}", ctx_s, en.lines.len(), bound, now.len()) };
+                                    }
+                                    if now.len() != rows + l {
+                                        return Verdict::Violation { rule: "C16/primary-trimmed-wrongly".into(), detail: format!("{}: the pending trim left {} lines, expected rows + limit = {}", ctx_s, now.len(), rows + l) };
+                                    }
+                                    if !by_feed {
+                                        let dropped = &en.lines[..en.lines.len() - now.len()];
+                                        if handed_out != dropped {
+                                            return Verdict::Violation { rule: "C16/trimmed-lines-not-handed-out".into(), detail: format!("{}: {} lines left the primary on return but {} were handed out through Changes.scrollback", ctx_s, dropped.len(), handed_out.len()) };
+                                        }
+                                    }
                                 }
                             }
                             if en.by_1049 && by_1049_out {
